@@ -45,6 +45,8 @@ struct UpState {
     count: usize,
     log: Vec<(Nm, u16)>,
     applied: Vec<(usize, Applied)>,
+    /// effects that do not belong to a fault script (key tag collision)
+    extra: Vec<(String, Applied)>,
 }
 
 #[derive(Clone)]
@@ -56,6 +58,60 @@ struct Up {
     /// real-time scenarios: for the lookup (apex of zone, type) serve this
     /// RRSIG instead of the genuine one(s)
     dnskey_sig: Option<(usize, u16, Rec)>,
+    /// header flag bits or-ed into every lookup reply (AD, CD, AA, Z: what an
+    /// upstream that validates itself, or lies, may set)
+    hdr_bits: u16,
+    /// every DNSKEY lookup reply of a signed zone carries one more key with
+    /// the key tag of the zone's ZSK or KSK (RRset validly re-signed)
+    key_coll: Option<KeyColl>,
+    /// every DS lookup reply that holds a DS RRset carries one more DS that
+    /// matches no DNSKEY (a pre-published / stand-by key): (listed first,
+    /// same key tag and algorithm as the genuine DS); RRset validly re-signed
+    ds_extra: Option<(bool, bool)>,
+}
+
+/// A second DNSKEY with the same key tag as a key of the zone (RFC 4035
+/// §5.3.1: "the validator ... MUST try each matching DNSKEY RR").
+#[derive(Clone, Copy, Debug, PartialEq, Eq, Hash)]
+struct KeyColl {
+    /// collide with the KSK (else the ZSK; the same key for a CSK)
+    ksk: bool,
+    /// listed before the genuine keys (else after them)
+    front: bool,
+    /// same tag but another algorithm number (never a candidate)
+    other_alg: bool,
+}
+
+/// DNSKEY RDATA that differs from `target` in its public key but has the
+/// same key tag: one octet in the middle of the key is changed and the last
+/// two octets are chosen to compensate (RFC 4034 appendix B checksum).
+fn colliding_key(target: &[u8], other_alg: bool) -> Option<Vec<u8>> {
+    static CACHE: Mutex<BTreeMap<(Vec<u8>, bool), Option<Vec<u8>>>> = Mutex::new(BTreeMap::new());
+    let key = (target.to_vec(), other_alg);
+    if let Some(v) = CACHE.lock().unwrap().get(&key) {
+        return v.clone();
+    }
+    let out = (|| {
+        let n = target.len();
+        if n < 4 + 8 {
+            return None;
+        }
+        let tag = refsec::key_tag(target);
+        let mut k = target.to_vec();
+        if other_alg {
+            k[3] = if k[3] == 13 { 8 } else { 13 };
+        }
+        k[4 + (n - 4) / 2] ^= 0x5a;
+        for x in 0..=0xffffu16 {
+            k[n - 2..].copy_from_slice(&x.to_be_bytes());
+            if refsec::key_tag(&k) == tag {
+                return Some(k);
+            }
+        }
+        None
+    })();
+    CACHE.lock().unwrap().insert(key, out.clone());
+    out
 }
 
 #[derive(Debug)]
@@ -94,6 +150,50 @@ impl Up {
         let mut resp = resolve(&self.world, &qname, qtype);
         let mut m = resp.to_msg(&qname, qtype);
         m.id = msg.header().id();
+        m.flags |= self.hdr_bits;
+        if let (Some(kc), true) = (self.key_coll, qtype == T_DNSKEY) {
+            if let Some(z) = self.world.zones.iter().find(|z| z.shape.signed && name_eq(&z.apex, &qname)) {
+                let target = z.dnskey_rdata(kc.ksk);
+                let has_set = m.answer.iter().any(|r| r.rtype == T_DNSKEY);
+                if let (true, Some(extra)) = (has_set, colliding_key(&target, kc.other_alg)) {
+                    let at = if kc.front { m.answer.iter().position(|r| r.rtype == T_DNSKEY).unwrap_or(0) } else { m.answer.iter().rposition(|r| r.rtype == T_DNSKEY).map(|p| p + 1).unwrap_or(0) };
+                    m.answer.insert(at, Rec::new(&z.apex, T_DNSKEY, 3600, extra));
+                    // the zone publishes the key: the KSK signs the whole set
+                    m.answer.retain(|r| !(r.rtype == T_RRSIG && r.covered() == T_DNSKEY));
+                    let rrset: Vec<Rec> = m.answer.iter().filter(|r| r.rtype == T_DNSKEY).cloned().collect();
+                    let sig = craft_sig(z.ksk, &z.dnskey_rdata(true), &z.apex, &rrset, label_count(&z.apex) as u8, 3600, self.world.inception, self.world.expiration, None);
+                    m.answer.push(sig);
+                    let label = format!("dnskey-tag-collision-{}-{}-{}:@{}", if kc.other_alg { "other-alg" } else { "same-alg" }, if kc.ksk { "ksk" } else { "zsk" }, if kc.front { "first" } else { "last" }, show(&z.apex));
+                    self.state.lock().unwrap().extra.push(("lookup-DNSKEY".into(), Applied { effect: Effect::Harmless, label, touches_signed: true, forged_zone: None }));
+                }
+            }
+        }
+        if let (Some((front, same_tag)), true) = (self.ds_extra, qtype == T_DS) {
+            // the DS RRset lives in the parent of the zone whose apex is asked
+            let parent = self.world.zones.iter().find(|z| name_eq(&z.apex, &qname)).and_then(|z| z.parent).map(|p| &self.world.zones[p]);
+            let first = m.answer.iter().position(|r| r.rtype == T_DS);
+            if let (Some(p), Some(at)) = (parent.filter(|p| p.shape.signed), first) {
+                let mut rd = m.answer[at].rdata.clone();
+                if rd.len() > 6 {
+                    let n = rd.len();
+                    rd[n - 1] ^= 0xa5;
+                    rd[4] ^= 0x3c;
+                    if !same_tag {
+                        rd[1] ^= 0x11;
+                    }
+                    let owner = m.answer[at].owner.clone();
+                    let ttl = m.answer[at].ttl;
+                    let pos = if front { at } else { m.answer.iter().rposition(|r| r.rtype == T_DS).map(|x| x + 1).unwrap_or(at) };
+                    m.answer.insert(pos, Rec::new(&owner, T_DS, ttl, rd));
+                    m.answer.retain(|r| !(r.rtype == T_RRSIG && r.covered() == T_DS));
+                    let rrset: Vec<Rec> = m.answer.iter().filter(|r| r.rtype == T_DS).cloned().collect();
+                    let sig = craft_sig(p.zsk, &p.dnskey_rdata(false), &p.apex, &rrset, label_count(&owner) as u8, ttl, self.world.inception, self.world.expiration, None);
+                    m.answer.push(sig);
+                    let label = format!("ds-without-matching-key-{}-{}:@{}", if same_tag { "same-tag" } else { "other-tag" }, if front { "first" } else { "last" }, show(&owner));
+                    self.state.lock().unwrap().extra.push(("lookup-DS".into(), Applied { effect: Effect::Harmless, label, touches_signed: true, forged_zone: None }));
+                }
+            }
+        }
         if let Some((zi, t, sig)) = &self.dnskey_sig {
             if qtype == *t && name_eq(&self.world.zones[*zi].apex, &qname) {
                 m.answer.retain(|r| !(r.rtype == T_RRSIG && r.covered() == *t));
@@ -185,7 +285,27 @@ struct Case {
     warm: bool,
     /// query name (relative) and type outside the RELS/QTYPES tables
     special: Option<(&'static str, u16)>,
+    // Dimensions added later. They are decoded from the octets that follow
+    // everything else, so an input that ends earlier (all replay files made
+    // before) decodes to "none of them", i.e. to the case it always was.
+    /// value handed to Config::set_max_cname_dname (None: setter not called)
+    max_cname: Option<u8>,
+    /// header flag bits (AD, CD, AA, Z) the upstream sets in the final answer
+    hdr_bits: u16,
+    /// ... and in the replies to the validator's DS / DNSKEY lookups
+    hdr_lookups: bool,
+    key_coll: Option<KeyColl>,
+    /// values for Config::set_nsec3_iter_insecure / set_nsec3_iter_bogus
+    n3_limits: Option<(u16, u16)>,
+    /// all four caches of the context limited to one entry (constant eviction)
+    small_caches: bool,
+    ds_extra: Option<(bool, bool)>,
 }
+
+const F_AA: u16 = 0x0400;
+const F_Z: u16 = 0x0040;
+const F_AD: u16 = 0x0020;
+const F_CD: u16 = 0x0010;
 
 fn zone_shape(u: &mut Unstructured, root: bool) -> ZoneShape {
     let signed = chance(u, 244);
@@ -289,7 +409,22 @@ fn decode(u: &mut Unstructured, restricted: Option<&[SKind]>, plain_world: bool)
         z[ta_zone].alg = Alg::P256;
     }
     let shape = Shape { z, ta: if plain_world && !matches!(ta, Ta::RootDs | Ta::RootDnskey | Ta::RootBoth) { Ta::RootDs } else { ta } };
-    Case { shape, qzone, rel, qtype, lie, authority_ns, answer_fault, up_faults, bad_sigs, via_connection, warm, special }
+    // trailing dimensions (index 0 = as before, also when the input has ended)
+    let max_cname = [None, None, None, Some(0u8), Some(1), Some(2), Some(3), Some(11), Some(100), Some(101), Some(200), Some(254), Some(255)][pick(u, 13)];
+    let hdr_bits = [0, 0, 0, F_AD, F_CD, F_AD | F_CD, F_AD | F_CD, F_AD | F_AA, F_Z, F_AD | F_CD | F_AA | F_Z][pick(u, 10)];
+    let hdr_lookups = flag(u);
+    let kc = byte(u);
+    let key_coll = if kc < 150 { None } else { Some(KeyColl { ksk: kc & 1 == 1, front: kc & 2 == 2, other_alg: kc & 0x0c == 0x0c }) };
+    let n3_limits = [None, None, None, Some((0u16, 500u16)), Some((12, 500)), Some((150, 500)), Some((500, 500)), Some((99, 99)), Some((150, 12)), Some((600, 600))][pick(u, 10)];
+    let small_caches = byte(u) >= 200;
+    let qx = pick(u, 32);
+    if qx >= 30 && lie.is_none() && special.is_none() {
+        // queries below the self-referential DNAME `dl.<apex>`
+        special = Some([("a.dl", T_A), ("x.y.dl", T_AAAA)][qx - 30]);
+    }
+    let dx = byte(u);
+    let ds_extra = if dx < 170 { None } else { Some((dx & 1 == 1, dx & 2 == 2)) };
+    Case { shape, qzone, rel, qtype, lie, authority_ns, answer_fault, up_faults, bad_sigs, via_connection, warm, special, max_cname, hdr_bits, hdr_lookups, key_coll, n3_limits, small_caches, ds_extra }
 }
 
 fn st(v: ValidationState) -> Status {
@@ -344,6 +479,21 @@ fn run_case(case: &Case, ctx: &mut Ctx) -> CaseResult {
             (n, qt, r, None)
         }
     };
+    // Config::set_nsec3_iter_insecure / _bogus (both 0..=500, defaults 100 /
+    // 500): NSEC3 records with more iterations than either are not hashed.
+    // The model has an expectation only when no zone on the path exceeds the
+    // smaller of the two.
+    if let Some((i, b)) = case.n3_limits {
+        let limit = i.min(500).min(b.min(500));
+        resp.high_iter = resp.max_iter > limit;
+        ctx.class(format!("knob:nsec3-iter-limit:{limit}"));
+        if resp.max_iter > 0 {
+            ctx.class(format!("knob:nsec3-iter:{}", if resp.max_iter > limit { "zone-above-limit" } else if resp.max_iter > 100 { "zone-above-100-within-limit" } else { "zone-within-limit" }));
+        }
+    }
+    if case.small_caches {
+        ctx.class("knob:caches-of-one-entry");
+    }
     if case.authority_ns && lie_label.is_none() {
         add_authority_ns(&w, &mut resp);
     }
@@ -356,8 +506,27 @@ fn run_case(case: &Case, ctx: &mut Ctx) -> CaseResult {
         ctx.class("ds-of-anchored-name");
         truth_expected = None;
     }
+    // Config::set_max_cname_dname: "maximum number of CNAME and DNAME records
+    // that are followed during validation" (0..=100, default 11). An answer
+    // that needs more than the configured number has no expectation; one that
+    // needs at most that many keeps the model's.
+    let n_follow = resp.kinds.iter().filter(|k| matches!(**k, "cname" | "wildcard-cname" | "dname")).count();
+    let cname_limit = case.max_cname.map(|v| v.min(100) as usize).unwrap_or(11);
+    if let Some(v) = case.max_cname {
+        ctx.class(format!("knob:max-cname-dname:{}", match v { 0..=3 => "0-3", 4..=100 => "4-100", _ => "above-100" }));
+        if resp.kinds.contains(&"cname-loop") {
+            ctx.class(format!("knob:loop-with-max-cname-dname:{}:{}", if v > 100 { "above-100" } else { "0-100" }, if resp.kinds.contains(&"dname") { "dname" } else { "cname" }));
+        }
+    }
+    if lie_label.is_none() && n_follow > cname_limit {
+        ctx.class("knob:chain-longer-than-max-cname-dname");
+        truth_expected = None;
+    } else if case.max_cname.is_some() && n_follow > 0 && n_follow == cname_limit {
+        ctx.class("knob:chain-exactly-max-cname-dname");
+    }
     let lie_secure = lie_label.is_some() && w.zones[case.qzone].status == Status::Secure;
     let mut m = resp.to_msg(&qname, qtype);
+    m.flags |= case.hdr_bits;
     let mut sets = resp.sets.clone();
     let mut applied: Vec<(String, Applied)> = vec![];
     let mut opts = WriteOpts::default();
@@ -375,6 +544,10 @@ fn run_case(case: &Case, ctx: &mut Ctx) -> CaseResult {
                 applied.push(("answer".into(), Applied { effect: Effect::Harmless, label: l, touches_signed: false, forged_zone: None }));
             }
         }
+    }
+    if case.hdr_bits != 0 {
+        let names: Vec<&str> = [(F_AD, "ad"), (F_CD, "cd"), (F_AA, "aa"), (F_Z, "z")].iter().filter(|(b, _)| case.hdr_bits & b != 0).map(|(_, n)| *n).collect();
+        applied.push(("answer".into(), Applied { effect: Effect::Harmless, label: format!("hdr-flags:{}", names.join("+")), touches_signed: false, forged_zone: None }));
     }
     let (wire, a) = finish(&m, &opts, wire_kind);
     if let Some(a) = a {
@@ -402,13 +575,27 @@ fn run_case(case: &Case, ctx: &mut Ctx) -> CaseResult {
         up_faults.clear();
     }
     let state = Arc::new(Mutex::new(UpState::default()));
-    let up = Up { world: w.clone(), faults: up_faults.clone(), final_qtype: qtype, state: state.clone(), dnskey_sig: None };
+    let lookup_bits = if case.hdr_lookups { case.hdr_bits } else { 0 };
+    let up = Up { world: w.clone(), faults: up_faults.clone(), final_qtype: qtype, state: state.clone(), dnskey_sig: None, hdr_bits: lookup_bits, key_coll: case.key_coll, ds_extra: case.ds_extra };
     let ta = match TrustAnchors::from_u8(w.anchors.as_bytes()) {
         Ok(t) => t,
         Err(e) => vfail!("world:trust-anchor-text-rejected", "{e}\n{}", w.anchors),
     };
     let mut config = Config::new();
     config.set_bad_signatures(case.bad_sigs);
+    if let Some(v) = case.max_cname {
+        config.set_max_cname_dname(v);
+    }
+    if let Some((i, b)) = case.n3_limits {
+        config.set_nsec3_iter_insecure(i);
+        config.set_nsec3_iter_bogus(b);
+    }
+    if case.small_caches {
+        config.set_max_node_cache(1);
+        config.set_max_nsec3_cache(1);
+        config.set_max_isig_cache(1);
+        config.set_max_usig_cache(1);
+    }
     let vc = ValidationContext::with_config(ta, up, config);
     let Ok(mut msg) = Message::from_octets(bytes.clone()) else {
         ctx.class("final-message-shorter-than-header");
@@ -429,10 +616,16 @@ fn run_case(case: &Case, ctx: &mut Ctx) -> CaseResult {
         Ok(r) => (r, None),
         Err(v) => (Err(domain::dnssec::validator::context::Error::FormError), Some(v)),
     };
-    let (count, log, up_applied) = {
+    let (count, log, up_applied, up_extra) = {
         let s = state.lock().unwrap();
-        (s.count, s.log.clone(), s.applied.clone())
+        (s.count, s.log.clone(), s.applied.clone(), s.extra.clone())
     };
+    // (the warm-up run asks the same lookups: keep one entry per label)
+    for (t, a) in up_extra {
+        if !applied.iter().any(|(_, x)| x.label == a.label) {
+            applied.push((t, a));
+        }
+    }
     for (fi, mut a) in up_applied {
         let f = &up_faults[fi];
         a.label = format!("{}:@{}", a.label, show(&w.zones[f.zone].apex));
@@ -526,9 +719,22 @@ fn run_case(case: &Case, ctx: &mut Ctx) -> CaseResult {
     if let (Some((do_bit, ad_bit, cd_bit)), None) = (case.via_connection, &panicked) {
         use domain::base::{MessageBuilder, Name, Rtype};
         let state2 = Arc::new(Mutex::new(UpState::default()));
-        let up2 = Up { world: w.clone(), faults: up_faults.clone(), final_qtype: qtype, state: state2, dnskey_sig: None };
+        let up2 = Up { world: w.clone(), faults: up_faults.clone(), final_qtype: qtype, state: state2, dnskey_sig: None, hdr_bits: lookup_bits, key_coll: case.key_coll, ds_extra: case.ds_extra };
         let mut config = Config::new();
         config.set_bad_signatures(case.bad_sigs);
+        if let Some(v) = case.max_cname {
+            config.set_max_cname_dname(v);
+        }
+        if let Some((i, b)) = case.n3_limits {
+            config.set_nsec3_iter_insecure(i);
+            config.set_nsec3_iter_bogus(b);
+        }
+        if case.small_caches {
+            config.set_max_node_cache(1);
+            config.set_max_nsec3_cache(1);
+            config.set_max_isig_cache(1);
+            config.set_max_usig_cache(1);
+        }
         let ta2 = TrustAnchors::from_u8(w.anchors.as_bytes()).expect("anchors parsed before");
         let vc2 = Arc::new(ValidationContext::with_config(ta2, up2, config));
         let conn = domain::net::client::validator::Connection::<FinalUp, Vec<u8>, Up>::new(FinalUp { bytes: bytes.clone() }, vc2);
@@ -550,6 +756,11 @@ fn run_case(case: &Case, ctx: &mut Ctx) -> CaseResult {
         let final_rcode = (bytes[3] & 0x0f) as u16;
         let wire_fault = applied.iter().any(|(t, a)| t == "answer" && matches!(a.label.split(':').next().unwrap_or(""), "truncated" | "flip-bit") || a.label.starts_with("header-count"));
         ctx.class(format!("connection:do={do_bit}:cd={cd_bit}"));
+        if case.hdr_bits & F_AD != 0 {
+            // the upstream claims to have validated: the AD bit handed out must
+            // still be the validator's own
+            ctx.class(format!("connection:upstream-sets-ad:cd={cd_bit}:upstream-cd={}", case.hdr_bits & F_CD != 0));
+        }
         match r {
             Err(v) => {
                 let parts: Vec<&str> = v.sig.splitn(3, ':').collect();
@@ -752,7 +963,7 @@ fn realtime_checks() -> Result<Vec<&'static str>, Violation> {
     let ds = tld.node(&z.apex).and_then(|n| n.rrsets.get(&T_DS)).cloned().ok_or_else(|| Violation::new("world:no-ds", "tld. has no DS for zone.tld."))?;
     let dsig = craft_sig(tld.zsk, &tld.dnskey_rdata(false), &tld.apex, &ds, label_count(&z.apex) as u8, 3600, exp.wrapping_sub(1000), exp, None);
     let mk = |dnskey_sig: Option<(usize, u16, Rec)>| -> Result<ValidationContext<Up>, Violation> {
-        let up = Up { world: w.clone(), faults: vec![], final_qtype: T_A, state: Arc::new(Mutex::new(UpState::default())), dnskey_sig };
+        let up = Up { world: w.clone(), faults: vec![], final_qtype: T_A, state: Arc::new(Mutex::new(UpState::default())), dnskey_sig, hdr_bits: 0, key_coll: None, ds_extra: None };
         let ta = TrustAnchors::from_u8(w.anchors.as_bytes()).map_err(|e| Violation::new("world:trust-anchor-text-rejected", format!("{e}")))?;
         Ok(ValidationContext::new(ta, up))
     };
@@ -962,6 +1173,28 @@ fn health(c: &BTreeMap<String, u64>, thorough: bool) -> Result<(), String> {
         ("fault:lookup:forged-dnskey-set", 20),
         ("fault:lookup:header-count", 5),
         ("fault:lookup:ttl-zero:Harmless", 20),
+        // dimensions added for the round 4/5 seeded changes
+        ("knob:max-cname-dname:0-3", 1000),
+        ("knob:max-cname-dname:4-100", 500),
+        ("knob:max-cname-dname:above-100", 1000),
+        ("knob:loop-with-max-cname-dname:above-100:cname", 10),
+        ("knob:loop-with-max-cname-dname:above-100:dname", 30),
+        ("knob:chain-exactly-max-cname-dname", 30),
+        ("knob:chain-longer-than-max-cname-dname", 30),
+        ("knob:nsec3-iter:zone-above-limit", 200),
+        ("knob:nsec3-iter:zone-above-100-within-limit", 100),
+        ("knob:nsec3-iter:zone-within-limit", 500),
+        ("knob:caches-of-one-entry", 1000),
+        ("fault:lookup:ds-without-matching-key-same-tag-first", 300),
+        ("fault:lookup:ds-without-matching-key-other-tag-first", 300),
+        ("fault:lookup:ds-without-matching-key-", 1500),
+        ("fault:answer:hdr-flags", 3000),
+        ("fault:lookup:dnskey-tag-collision-same-alg-zsk-first", 300),
+        ("fault:lookup:dnskey-tag-collision-same-alg-ksk-first", 300),
+        ("fault:lookup:dnskey-tag-collision-same-alg", 1500),
+        ("fault:lookup:dnskey-tag-collision-other-alg", 200),
+        ("connection:upstream-sets-ad:cd=true:upstream-cd=true", 10),
+        ("connection:upstream-sets-ad:cd=false", 100),
     ];
     for (k, n) in need {
         let have = sum(k);
@@ -975,13 +1208,13 @@ fn health(c: &BTreeMap<String, u64>, thorough: bool) -> Result<(), String> {
 pub fn prop() -> Option<Prop> {
     Some(Prop {
         id: "C14",
-        rule: "case = (world shape, query, 0-2 fault scripts on the final answer and on DS/DNSKEY lookups); non-trivial iff the queried zone has >= 2 secure signed levels above or at it and the case has a fault that touches a signed object or a negative/wildcard answer; distinct by decoded case",
+        rule: "case = (world shape, query, 0-2 fault scripts on the final answer and on DS/DNSKEY lookups, validator configuration, upstream header flags, DNSKEY key-tag collision); non-trivial iff the queried zone has >= 2 secure signed levels above or at it and the case has a fault that touches a signed object or a negative/wildcard answer; distinct by decoded case",
         assumptions: &[
             "signatures are valid from now-1d to now+1d; 'expired' ended a day ago, 'not yet valid' starts in a day, so the verdict does not depend on when the check runs",
             "ring's hash and signature primitives are trusted; fixture keys only (ECDSA P-256, RSA/SHA-256, RSA/SHA-512, Ed25519 as 'unsupported by the validator')",
             "a signer at or above the owner name (ancestor zone) is not counted as a wrong signer: such a signature still chains to the anchor",
         ],
-        subchecks: vec![SubCheck::new("world", run_main, 40_000, 500_000, 200), SubCheck::new("secure", run_secure, 40_000, 500_000, 160), SubCheck::new("extra", replay_extra, 0, 0, 8)],
+        subchecks: vec![SubCheck::new("world", run_main, 40_000, 500_000, 240), SubCheck::new("secure", run_secure, 40_000, 500_000, 200), SubCheck::new("extra", replay_extra, 0, 0, 8)],
         health: Some(health),
         extra: Some(extra),
     })
